@@ -12,6 +12,7 @@ FEAT = {"nillable": True, "tokens": True, "wrapper": True, "sequence": True, "fi
 XSI = "http://www.w3.org/2001/XMLSchema-instance"
 
 TYPING = ("out-of-claim: None inside a list that is not nillable", "out-of-claim: None where the default is not None")
+TOKEN_NONE = "out-of-claim: None among the tokens of a token list (typing)"
 TOKEN = "out-of-claim: empty token or token with white space (xs:list)"
 NIL_CLASS = "out-of-claim: None under a nillable var of a nillable class (same document as an empty object)"
 EMPTY_TEXT = "out-of-claim: empty text vs None"
@@ -208,6 +209,8 @@ def regions(desc, value, ctx=None):
 
     def tok_check(items):
         for y in items:
+            if y is None:
+                out.append(TOKEN_NONE)
             if isinstance(y, dict) and "str" in y and (y["str"] == "" or any(ch.isspace() for ch in y["str"])):
                 out.append(TOKEN)
 
@@ -400,6 +403,23 @@ def spoil(rng, value):
                 a["tail"] = rng.choice(["tl", " "])
         if rng.random() < 0.1:
             w["list"].append(rng.choice([None, {"str": "loose"}]))
+    # `None` among the items of a list / in place of a primitive (typing regions)
+    def nones(x):
+        if isinstance(x, dict):
+            if "obj" in x:
+                for kv in x["fields"]:
+                    if isinstance(kv[1], dict) and any(k in kv[1] for k in ("str", "int", "bool")) and rng.random() < 0.04:
+                        kv[1] = None
+                    else:
+                        nones(kv[1])
+            elif "list" in x:
+                if x["list"] and all(isinstance(y, dict) and any(k in y for k in ("str", "int", "bool")) for y in x["list"]) \
+                        and rng.random() < 0.1:
+                    x["list"].insert(rng.randrange(len(x["list"]) + 1), None)
+                for y in x["list"]:
+                    nones(y)
+
+    nones(v)
     for leaf in leaves:
         if rng.random() < 0.25:
             leaf["str"] = rng.choice(["", "", " ", "a b", "\tq"])
